@@ -59,3 +59,26 @@ Proof.
   exact (live_pods_disjoint_l _ k1 k2 p q x (winv_reachable _ _ _ H) Hp Hq Hne Hlp Hlq Hxp Hxq).
 Qed.
 Print Assumptions live_pods_disjoint.
+
+(** non-vacuity: a concrete well-formed history (one pool 10.100.0.2~10.100.0.9; the statefulset pods
+    ns1/web-0 and ns1/web-1 created, seen by the informer, filtered and bound on node1) whose final world
+    has two live bound pods, holding 10.100.0.2 and 10.100.0.3 *)
+Example live_pods_disjoint_nonvacuous : ∃ nodes ops, wf_hist (world0 false nodes) ops ∧
+  let w := prun (world0 false nodes) ops in
+  ∃ k1 k2 p q, k1 ≠ k2 ∧ w_pods w !! k1 = Some p ∧ w_pods w !! k2 = Some q ∧ live_bound p ∧ live_bound q ∧
+               pd_ips p = [174325762] ∧ pd_ips q = [174325763].
+Proof. exists nodes1, h_two. exact h_two_live. Qed.
+Print Assumptions live_pods_disjoint_nonvacuous.
+
+(** ** defect F1 of the pinned commit (repaired by a fix: commit in the Go code): a pod event of an earlier
+    incarnation was not ignored.  [prun_fl false true true] runs the model with that repair switched off
+    ([prun_fl true true true = prun]).  Witness [h_f1c] of Proofs/PluginWitness.v: statefulset pod A (web-0)
+    bound to 10.100.0.2 and finished, its finish event handled; A deleted, B (same name, new UID) created
+    and bound to 10.100.0.2; A's late delete event releases B's IP; a third pod C (web-1) is bound and
+    receives 10.100.0.2 while B is still live. *)
+Theorem live_pods_disjoint_refuted_late_event_old : ∃ nodes ops, wf_hist (world0 false nodes) ops ∧
+  ∃ k1 k2 p q x, let w := prun_fl false true true (world0 false nodes) ops in
+    w_pods w !! k1 = Some p ∧ w_pods w !! k2 = Some q ∧ k1 ≠ k2 ∧ live_bound p ∧ live_bound q ∧
+    x ∈ pd_ips p ∧ x ∈ pd_ips q.
+Proof. exact live_pods_disjoint_refuted_late_event. Qed.
+Print Assumptions live_pods_disjoint_refuted_late_event_old.
